@@ -83,7 +83,9 @@ Inductive sc_op :=
 | SInsertH (k : Z) (i : nat)   (* InsertTrieNode(k, the i-th held object as it is now) *)
 | SDelete (k : Z)
 | SMutate (i : nat) (t : Z)    (* the caller overwrites every field / element of the i-th held object *)
-| SCommitTxn | SDiscardTxn | SCommitBlock | SDiscardBlock.
+| SCommitTxn | SDiscardTxn | SCommitBlock | SDiscardBlock
+| SInsertRej (k : Z).          (* InsertTrieNode of a value the trie rejects (encoding larger than
+                                  MPTMaxAllowableNodeSize): an error, neither trie nor cache change *)
 
 Inductive sc_out := SOData (d : option sc_data) | SOOk | SOErr.
 
@@ -174,6 +176,7 @@ Definition sc_step (st : sc_state) (o : sc_op) : sc_state * sc_out :=
           ss_bc := []; ss_sc := ss_sc st;
           ss_ttxn := ss_tbase st; ss_tblk := ss_tbase st; ss_tbase := ss_tbase st;
           ss_handles := ss_handles st |}, SOOk)
+  | SInsertRej _ => (st, SOErr)
   end.
 
 Definition sc_init (m : sc_mode) : sc_state :=
@@ -194,4 +197,4 @@ Definition sc_trie_view (st : sc_state) (k : Z) : option sc_data := sc_al_get Z.
 
 (* operations a transaction can do *)
 Definition sc_is_txn_op (o : sc_op) : bool :=
-  match o with SGet _ | SInsert _ _ | SInsertH _ _ | SDelete _ | SMutate _ _ => true | _ => false end.
+  match o with SGet _ | SInsert _ _ | SInsertH _ _ | SDelete _ | SMutate _ _ | SInsertRej _ => true | _ => false end.
